@@ -112,6 +112,46 @@ func WorkerMain(argv []string) {
 	rep.w.Flush()
 }
 
+var inflightFile *os.File
+
+// Inflight records, in a per-worker scratch file named by the parent, the input the worker is about to run, so
+// that a fatal death (out of memory, stack overflow) or a stall can be attributed to that exact input rather than
+// to the whole case. One pwrite per input; the page cache survives the death of the process.
+func Inflight(label string, b []byte) {
+	if inflightFile == nil {
+		p := os.Getenv("VERIF_INFLIGHT")
+		if p == "" {
+			return
+		}
+		f, err := os.OpenFile(p, os.O_RDWR|os.O_CREATE, 0o644)
+		if err != nil {
+			return
+		}
+		inflightFile = f
+	}
+	if len(b) > 1<<16 {
+		b = b[:1<<16]
+	}
+	buf := make([]byte, 0, 8+len(label)+len(b))
+	buf = append(buf, byte(len(label)>>8), byte(len(label)), byte(len(b)>>24), byte(len(b)>>16), byte(len(b)>>8), byte(len(b)))
+	buf = append(buf, label...)
+	buf = append(buf, b...)
+	inflightFile.WriteAt(buf, 0)
+}
+
+func readInflight(path string) (label string, data []byte) {
+	b, err := os.ReadFile(path)
+	if err != nil || len(b) < 6 {
+		return "", nil
+	}
+	ll := int(b[0])<<8 | int(b[1])
+	dl := int(b[2])<<24 | int(b[3])<<16 | int(b[4])<<8 | int(b[5])
+	if 6+ll+dl > len(b) {
+		return "", nil
+	}
+	return string(b[6 : 6+ll]), b[6+ll : 6+ll+dl]
+}
+
 // GuardSpec configures a guarded run.
 type GuardSpec struct {
 	Worker   string
@@ -157,7 +197,9 @@ func (c *Ctx) RunGuarded(spec GuardSpec) int64 {
 					cmdline += fmt.Sprintf(" %q", a)
 				}
 				cmd := exec.Command("bash", "-c", cmdline)
-				cmd.Env = append(os.Environ(), "GOTRACEBACK=single", "GOMAXPROCS=2")
+				inflightPath := fmt.Sprintf("%s/.build/run/inflight.%d.%s.%d", Root, os.Getpid(), spec.Worker, sh)
+				os.Remove(inflightPath)
+				cmd.Env = append(os.Environ(), "GOTRACEBACK=single", "GOMAXPROCS=2", "VERIF_INFLIGHT="+inflightPath)
 				out, _ := cmd.StdoutPipe()
 				var stderr strings.Builder
 				cmd.Stderr = &limitedWriter{b: &stderr, max: 6000}
@@ -221,6 +263,8 @@ func (c *Ctx) RunGuarded(spec GuardSpec) int64 {
 					}
 				}
 				cmd.Wait()
+				inLabel, inData := readInflight(inflightPath)
+				os.Remove(inflightPath)
 				if ended {
 					return
 				}
@@ -236,7 +280,12 @@ func (c *Ctx) RunGuarded(spec GuardSpec) int64 {
 				if stalled {
 					kind = "stall"
 				}
-				c.Violate("guard", fmt.Sprintf("%s:%s:%s", spec.Worker, kind, fatalClass(stderr.String())), map[string]interface{}{"stderr": stderr.String(), "stalled": stalled}, cas)
+				key := fmt.Sprintf("%s:%s:%s", spec.Worker, kind, fatalClass(stderr.String()))
+				if inLabel != "" {
+					key += ":" + inLabel
+					cas = map[string]interface{}{"worker": spec.Worker, "index": inflight, "args": spec.Args, "input_label": inLabel, "input_hex": fmt.Sprintf("%x", inData)}
+				}
+				c.Violate("guard", key, map[string]interface{}{"stderr": stderr.String(), "stalled": stalled}, cas)
 				from = inflight + 1
 				restarts++
 				if restarts > 200 {
